@@ -319,10 +319,6 @@ structure St where
       current authority incarnation of that hash slot -/
   fences : List (Nat × Key × Nat) := []
 
-def opTarget : Op → Option Target
-  | .reg t _ | .commit t _ | .abort t _ | .unreg t _ _ | .touch t _ | .ep t _ | .eps t _ => some t
-  | _ => none
-
 def readOnly : Op → Bool
   | .ep .. | .eps .. | .ept .. | .snap => true
   | _ => false
@@ -338,7 +334,7 @@ def judge (st : St) (op : Op) (res raw : String) (im : ImplState) : String × Li
   let d := im.dir
   -- (1) fencing by exact authority target
   let v1 :=
-    match opTarget op with
+    match op.target with
     | some t =>
       if !accepts prev t then
         (if res != "err:notleader" then "viol:stale-target-accepted"
